@@ -14,10 +14,13 @@ VERIF = P.VERIF
 EVDIR = os.environ.get('VERIF_EVIDENCE_DIR', os.path.join(VERIF, 'evidence'))
 
 
-def select_harnesses(all_h, prop, tier):
+def select_harnesses(all_h, prop, tier, extra=None):
     pid = prop.lower()
     out = []
     for name in sorted(all_h):
+        if extra and re.search(extra, name):
+            out.append(name)
+            continue
         m = re.match(r'^(c\d\d)[a-z]?_', name)
         if not m or m.group(1) != pid:
             continue
@@ -146,7 +149,7 @@ def main(argv):
             return 1
         return 0
 
-    names = select_harnesses(all_h, prop, tier)
+    names = select_harnesses(all_h, prop, tier, cfg.get('extra_harnesses'))
     if a.only:
         names = [n for n in names if re.search(a.only, n)]
     if not names:
